@@ -303,18 +303,38 @@ def spaces(tier, variant, seed):
     # ---- %F against libc double output on short exactly representable values ----
     FV = [0.0, 1.0, -1.0, 1.5, -0.25, 0.125, 1024.0, -1e10, 123456.0, 0.5, 3.0, 1e15, -7.75, 65536.0, 0.0625]
 
+    if tier != "quick":
+        FV = FV + [2.0 ** k for k in range(-12, 40, 3)] + [-(2.0 ** k) for k in (-5, 0, 7, 33)] + [10.0 ** k for k in range(0, 16)] + [0.75, 2.5, -99.5, 1e5 + 0.5, 123.456e3, 9.5, 99.5, 0.09375]
+
     def f_cases(blk):
         conv = blk
+        fss = FLAGSETS if tier != "quick" else ("", "-", "+", " ", "0", "+0", "-+", "#", "#0", "- ", "+ 0", "-0")
+        ws = (None, 4, 12, 20, ("*", 9), ("*", -9)) if tier == "quick" else (None, 0, 1, 4, 7, 12, 20, 40, 300, ("*", 9), ("*", -9), ("*", 0))
+        ps = (None, 0, 1, 3, 6, 10, ("*", 2), ("*", -1)) if tier == "quick" else (None, 0, 1, 2, 3, 4, 6, 10, 17, 30, ("*", 2), ("*", -1), ("*", 0))
         for vi in range(len(FV)):
-            for fs in ("", "-", "+", " ", "0", "+0", "-+", "#"):
-                for w in (None, 4, 12, 20):
-                    for p in (None, 0, 1, 3, 6, 10):
+            for fs in fss:
+                for w in ws:
+                    for p in ps:
                         yield (conv, vi, fs, w, p)
 
     def exact_shown(v, conv, p):
         """true when libc's output shows the value exactly (no rounding rule is involved)"""
         fr = Fraction(v)
+        if isinstance(p, tuple):
+            p = p[1] if p[1] >= 0 else None
         pp = 6 if p is None else p
+        if conv in "gG":
+            # %g shows max(P,1) significant digits: exact when the value has no more than that many
+            if fr == 0:
+                return True
+            P_ = max(pp, 1)
+            import math
+            ex = math.floor(math.log10(abs(fr)))
+            if Fraction(10) ** ex > abs(fr):
+                ex -= 1
+            if Fraction(10) ** (ex + 1) <= abs(fr):
+                ex += 1
+            return (abs(fr) / Fraction(10) ** ex * 10 ** (P_ - 1)).denominator == 1
         if conv == "f":
             return (fr * 10 ** pp).denominator == 1
         if conv in "eE":
@@ -347,7 +367,7 @@ def spaces(tier, variant, seed):
             R.fail("gmp_printf %F", "format %r value %r: got %r (ret %d), C library prints %r (ret %d)" % (gf, v, out, r, cb.value, cr))
         return (conv, fs, w, p, al.sgn(v), v == int(v))
 
-    sp.append(Space("F_vs_libc", list("feE"), f_cases, f_one, "%F{f,e,E} with flags/width/precision on values whose expansion is exact at the requested precision: byte identical to libc's double output"))
+    sp.append(Space("F_vs_libc", list("feEgG"), f_cases, f_one, "%F{f,e,E,g,G} with flags/width/precision (also through * with negative arguments) on values whose expansion is exact at the requested precision: byte identical to libc's double output"))
 
     # ---- %Ff / %Fe of large exactly representable values: every digit is determined ----
     def fb_cases(blk):
